@@ -185,8 +185,7 @@ def add(ctx, cfg):
             miss = ctx.sum([ctx.ite(present(t, fp), 0, 1) for _, fp, _ in t.keys])
             ctx.check(ctx.le(miss, 1), "at-most-one-old-missing" + sfx)
             ctx.check(ctx.eq(miss, 0), "no-old-missing" + sfx)
-        if not cfg["auto"]:
-            invariants(t, cap0, sfx)
+        invariants(t, cap0, sfx)      # also after a failed expansion the table that is left must be well-formed
 
 
 def remove(ctx, cfg):
